@@ -2,7 +2,7 @@
 
 ./selftest [id-prefix ...]   e.g. ./selftest M02 R02
 
-mutants/mutants.json lists curated edits of the library: mutants (the property's
+mutants/*.json list curated edits of the library: mutants (the property's
 quick check must exit 1) and behaviour-preserving refactors (must exit 0).  Each
 is applied to a scratch copy of /repo/PyMatterSim outside /repo and /verif; the
 check runs with PYMATTERSIM_SRC pointing at the copy and VERIF_OUT at a scratch
@@ -39,6 +39,11 @@ def run_one(m, tier="quick"):
                         ignore=shutil.ignore_patterns("__pycache__"))
         if os.path.isdir("/repo/tests"):
             shutil.copytree("/repo/tests", os.path.join(src, "tests"), ignore=shutil.ignore_patterns("__pycache__"))
+        for pre in m.get("pre", []):
+            pp = pre if os.path.isabs(pre) else os.path.join(VERIF, pre)
+            p = subprocess.run(["patch", "-p1", "-s", "-d", src, "-i", pp], capture_output=True, text=True)
+            if p.returncode != 0:
+                return {"id": m["id"], "status": "pre-patch-failed", "detail": p.stdout + p.stderr}
         if "patch" in m:
             p = subprocess.run(["patch", "-p1", "-s", "-d", src, "-i", m["patch"]], capture_output=True, text=True)
             if p.returncode != 0:
@@ -68,10 +73,19 @@ def run_one(m, tier="quick"):
 
 def main(argv):
     tier = "quick"
+    jobs = 1
+    for a in list(argv):
+        if a.startswith("-j"):
+            jobs = int(a[2:] or 4)
+            argv = [x for x in argv if x != a]
     if "--thorough" in argv:
         tier = "thorough"
         argv = [a for a in argv if a != "--thorough"]
-    ms = json.load(open(os.path.join(VERIF, "mutants", "mutants.json")))
+    ms = []
+    md = os.path.join(VERIF, "mutants")
+    for fn in sorted(os.listdir(md)):
+        if fn.endswith(".json"):
+            ms += json.load(open(os.path.join(md, fn)))
     sd = os.path.join(VERIF, "seeded")
     if os.path.isdir(sd):
         for d in sorted(os.listdir(sd)):
@@ -84,24 +98,19 @@ def main(argv):
         ms = [m for m in ms if any(m["id"].startswith(a) for a in argv)]
     results = []
     bad = 0
-    for m in ms:
-        r = run_one(m, tier)
-        results.append(r)
-        print(json.dumps(r))
-        sys.stdout.flush()
-        if r["status"] != "as-expected":
-            bad += 1
-    path = os.path.join(VERIF, "evidence", "selftest.json")
-    old = {}
-    if os.path.exists(path):
-        try:
-            old = {r["id"]: r for r in json.load(open(path))["results"]}
-        except Exception:
-            old = {}
+    import concurrent.futures as cf
+    with cf.ThreadPoolExecutor(max_workers=jobs) as ex:
+        for r in ex.map(lambda m: run_one(m, tier), ms):
+            results.append(r)
+            print(json.dumps(r))
+            sys.stdout.flush()
+            if r["status"] != "as-expected":
+                bad += 1
+    sdir = os.path.join(VERIF, "evidence", "selftest")
+    os.makedirs(sdir, exist_ok=True)
     for r in results:
-        old[r["id"]] = r
-    with open(path, "w") as f:
-        json.dump({"results": sorted(old.values(), key=lambda r: r["id"])}, f, indent=1)
+        with open(os.path.join(sdir, r["id"] + ".json"), "w") as f:
+            json.dump(r, f, indent=1)
     print(f"{len(results)} run, {bad} unexpected")
     return 1 if bad else 0
 
